@@ -82,7 +82,7 @@ def canon(p: Pair):
 
 
 def run(ctx):
-    depth = 6 if ctx.quick else 8
+    depth = 6 if ctx.quick else 7
     alphabet = H.EV_QUICK if ctx.quick else H.EV_THOROUGH
     ctx.prove_deterministic(lambda h: build(h, True).sys.obs,
                             [("rb_fail", "el_rec", "rb_fail", "el_err", "rb_ok", "tick_ok"), ("wb_new_fail", "rb_ok")])
